@@ -585,3 +585,8 @@ package keeper
 //@   ensures a == b
 //@ property C06 := accountKey#*, paymentKey#*, accountPaymentsKey#*, lemma:keyKindAccount, lemma:keyKindPayment, lemma:payPrefix, lemma:pKeyInjPid,
 //@                 lemma:escrowSeparation
+
+// C05 (money follows lifecycle): the other modules learn of every account and payment that leaves the open state - the
+// registered hooks run once per closed/overdrawn account and once per payment of it (the hooks then close the market
+// and deployment records: x/market/hooks, proved under C04/C05 there)
+//@ property C05 := (*keeper).doAccountSettle#ensures[hooks]*, (*keeper).doAccountSettle#ensures[phooks]*, (*keeper).AccountSettle#ensures[hooks]*, (*keeper).AccountClose#ensures[told]*, (*keeper).PaymentClose#ensures[told]*
